@@ -6,8 +6,9 @@ still points at it. Contracts on the real functions:
   (a) CommandManager._execute_uod_command, every exit (normal and exceptional): if the request has been marked done
       (cmd_executing_done), the uod holds no instance under the request's name any more;
   (b) CommandManager._finalize_command: the request is marked done and the instance is disposed;
-  (c) CommandManager._cancel_command(request, finalize=True): afterwards the uod holds no instance under the request's name
-      (tracking calls and the command's own cancel assumed not to raise);
+  (c) CommandManager._cancel_command(request, finalize=True): afterwards the instance is released, or — when the tracking call raised
+      (it does for user-started UOD commands) and the blanket handler swallowed it — the command is at least cancelled and its request
+      still executing, so that (a) finalizes it on the execute loop's next visit;
   (d) CommandManager.cancel_commands(source, finalize=True): for every executing request other than the source, no instance under its
       name remains (loop invariant over any number of requests)."""
 import z3
@@ -117,11 +118,74 @@ finalize = Contract(
              ("instances-stay-keyed-by-their-name", REP), ("only-this-request-is-marked-done", ONLY_THIS), ("done-marks-are-kept", KEPT_DONE)],
     modifies=mods("cmd"))
 
+ISUOD = z3.Function("IS_UOD_COMMAND_NAME", z3.StringSort(), z3.BoolSort())
+
+
+def has_command_name(ctx, args, kwargs):
+    """uod.has_command_name(name): whether the uod defines a command of that name (a fixed predicate of the name)"""
+    return SV(mk_bool(ISUOD(SVs(args[0].term))), Ty("bool"))
+
+
+def is_uod(ctx, name):
+    return SV(mk_bool(ISUOD(SVs(name.term))), Ty("bool"))
+
+
+has_command_name.modifies = []
+SPEC_FUNCS = {"is_uod": is_uod}
+
+
+def mark_may_raise(ctx, args, kwargs):
+    """Tracking.mark_cancelled(request): bookkeeping; raises ValueError when the request's node is not cancellable (always the case for a
+    UOD command started from the user side, whose node is a NullNode)"""
+    if ctx.choose(2, "tracking.mark_cancelled outcome") == 1:
+        ctx.raise_("ValueError", "node not cancellable")
+    return ctx.none()
+
+
+def cancel_flag(ctx, args, kwargs):
+    """cmd.cancel(): sets the command's cancelled flag (ghost)"""
+    ctx.ghost["cancelled"] = True
+    return ctx.none()
+
+
+mark_may_raise.modifies = []
+cancel_flag.modifies = []
+
+
+def cancel_exit(ctx, kind, result):
+    """cancel+finalize either releases the instance, or — when the tracking call raised and the blanket handler swallowed it — leaves the
+    command CANCELLED with its request still executing, so that the execute loop finalizes it on its next visit ((a): cancelled and not
+    finalized => finalize). What must not happen: an instance that is neither released nor cancelled."""
+    if kind != "return":
+        return
+    released = ctx.spec_bool(f"not has_key({INST}, cmd_request.name)")
+    still_executing = ctx.spec_bool(f"cmd_request not in {DONE} or old(cmd_request in {DONE})")
+    fin = ctx.truthy(ctx.local("finalize"))
+    had = ctx.spec_bool(f"old(has_key({INST}, cmd_request.name))")
+    running = ctx.ghost.get("not_complete", z3.BoolVal(True))
+    ok = z3.Or(released, z3.And(z3.BoolVal(bool(ctx.ghost.get("cancelled"))), still_executing))
+    ctx.check_w("finalize=>instance-released-or-command-cancelled-with-its-request-still-executing", z3.Implies(z3.And(fin, had, running), ok),
+                lambda m: {"cancel_flag_set": bool(ctx.ghost.get("cancelled"))}, "postcondition")
+
+
+def not_complete(ctx, args, kwargs):
+    """cmd.is_execution_complete(): some bool (ghost: remembered for the postcondition)"""
+    b = ctx.fresh("complete", "bool")
+    ctx.ghost["not_complete"] = z3.Not(ctx.truthy(b))
+    return b
+
+
+not_complete.modifies = []
+CALLS_CANCEL = dict(CALLS, **{"self.uod.has_command_name": has_command_name, "self.tracking.mark_cancelled": mark_may_raise, "cmd.cancel": cancel_flag, "cmd.is_execution_complete": not_complete})
 cancel = Contract(
-    target=CM + "_cancel_command", types=dict(TYPES, finalize="bool"), calls=CALLS, options=OPTS, raises={},
+    target=CM + "_cancel_command", types=dict(TYPES, finalize="bool", mark_cancelled="bool"), calls=CALLS_CANCEL, options=OPTS, raises={}, on_exit=cancel_exit,
     requires=[REP, "cmd_request.name.strip() != ''"],
-    ensures=[("finalize=>no-instance-under-the-request's-name-remains", f"implies(finalize, not has_key({INST}, cmd_request.name))"),
-             ("instances-stay-keyed-by-their-name", REP), ("only-this-request-is-marked-done", ONLY_THIS), ("done-marks-are-kept", KEPT_DONE)],
+    ensures=[("instances-stay-keyed-by-their-name", REP), ("only-this-request-is-marked-done", ONLY_THIS), ("done-marks-are-kept", KEPT_DONE),
+             ("clean-up-without-a-tracking-mark-releases-the-instance", f"implies(finalize and not mark_cancelled, not has_key({INST}, cmd_request.name))"),
+             ("a-request-that-has-not-started-yet-is-retired-so-that-it-cannot-start-after-the-cancellation",
+              f"implies(finalize and is_uod(cmd_request.name) and old(not has_key({INST}, cmd_request.name)) and cmd_request in self.cmd_executing, cmd_request in {DONE})"),
+             ("a-request-retired-by-this-call-leaves-no-instance-behind",
+              f"implies(cmd_request in {DONE} and not old(cmd_request in {DONE}), not has_key({INST}, cmd_request.name))")],
     modifies=mods(f"{INST}[cmd_request.name] if has_key({INST}, cmd_request.name) else None"))
 
 LOOP_INV = [REP, f"cmd_request not in {DONE}", "cmd_request.name.strip() != ''", "all(r.name.strip() != '' for r in self.cmd_executing)"]
@@ -153,6 +217,9 @@ EXPLANATION = "Partial claim: instance-release postconditions on the command man
 
 def replay(obligation, witness):
     import contracts.c10_native as n
+    if "_cancel_command" in obligation:
+        r = n.command_and_stop_in_the_same_tick() if "not-started-yet" in obligation else n.user_started_command_then_stop()
+        return {"confirmed": bool(r["violated"]), **r}
     r = n.stop_while_uod_commands_follow_back_to_back() if "EngineCommand._run" in obligation else n.invalid_arguments_then_stop()
     return {"confirmed": bool(r["violated"]), **r}
 
@@ -172,7 +239,19 @@ def _nat2():
     return {"ok": not r["violated"], "observation": r}
 
 
-NATIVE = [("native:invalid-arguments-then-stop-leaves-no-instance", _nat), ("native:stop-at-any-tick-of-back-to-back-commands-leaves-no-instance", _nat2)]
+def _nat3():
+    import contracts.c10_native as n
+    r = n.user_started_command_then_stop()
+    return {"ok": not r["violated"], "observation": r}
+
+
+def _nat4():
+    import contracts.c10_native as n
+    r = n.command_and_stop_in_the_same_tick()
+    return {"ok": not r["violated"], "observation": r}
+
+
+NATIVE = [("native:command-and-stop-requested-in-the-same-tick-leaves-no-instance", _nat4), ("native:user-started-command-then-stop-leaves-no-instance", _nat3), ("native:invalid-arguments-then-stop-leaves-no-instance", _nat), ("native:stop-at-any-tick-of-back-to-back-commands-leaves-no-instance", _nat2)]
 BOUNDED = ["one native scenario on the real engine (command with rejected arguments, then Stop): bounded, not counted"]
 
 
